@@ -394,6 +394,9 @@ func (r *Run) Finish() {
 	inconcl := append([]string(nil), r.inconcl...)
 	r.mu.Unlock()
 
+	if len(samples) == 0 {
+		inconcl = append(inconcl, "no sample case was recorded: the evidence would not show what a case looks like")
+	}
 	vacuous := r.evals.Load() < r.MinEvals || nd < r.MinDistinct
 	if vacuous {
 		inconcl = append(inconcl, fmt.Sprintf("vacuous run: evaluations=%d (min %d) distinct=%d (min %d)", r.evals.Load(), r.MinEvals, nd, r.MinDistinct))
